@@ -131,6 +131,17 @@ AllowedTrim(pre, post, map, size) ==   \* size = -1: any length
   /\ NoDup(NamesOf(post))
   /\ (size >= 0 => \A i \in 1..Len(post.rows) : Len(post.rows[i].n) <= size)   \* "shorten to the given size"
   /\ map = {<<pre.rows[i].n, post.rows[i].n>> : i \in 1..Len(pre.rows)}
+\* the same with a name map that already holds entries (a map shared by several calls, as the command does for the
+\* alignments of one file): known names keep their short name, the map grows by the new ones, and short names stay
+\* pairwise distinct over the WHOLE map
+AllowedTrimShared(pre, post, map, size, prev) ==
+  /\ post.k = pre.k /\ post.al = pre.al /\ post.len = pre.len
+  /\ SeqsOf(post) = SeqsOf(pre)
+  /\ NoDup(NamesOf(post))
+  /\ (size >= 0 => \A i \in 1..Len(post.rows) : Len(post.rows[i].n) <= size \/ \E p \in prev : p[1] = pre.rows[i].n)
+  /\ map = prev \cup {<<pre.rows[i].n, post.rows[i].n>> : i \in 1..Len(pre.rows)}
+  /\ \A p \in prev : \A i \in 1..Len(pre.rows) : pre.rows[i].n = p[1] => post.rows[i].n = p[2]
+  /\ \A p, q \in map : p[2] = q[2] => p[1] = q[1]
 
 \* ---- ordering, filtering ----------------------------------------------------
 SortOp(o) ==
